@@ -166,7 +166,12 @@ pub fn recreate_tree_for_block<D: PredictionDecoder>(
 fn calc_tc_lengths_without_trailing_zeros(bit_lengths: &[u8]) -> usize {
     let mut len = bit_lengths.len();
     // remove trailing zeros
-    while len > 4 && bit_lengths[TREE_CODE_ORDER_TABLE[len - 1]] == 0 {
+    // (bit_lengths has no entries for unused trailing symbols, which count as zero)
+    while len > 4
+        && bit_lengths
+            .get(TREE_CODE_ORDER_TABLE[len - 1])
+            .map_or(true, |&l| l == 0)
+    {
         len -= 1;
     }
 
